@@ -181,7 +181,50 @@ func (e *Engine) ContractFor(fn *ssa.Function) *Contract {
 	if c, ok := e.CS.Funcs["::"+pp+"."+rel]; ok {
 		return c
 	}
+	// a method without a contract of its own that implements an interface method whose contract
+	// is declared to stand for its implementations (matched by name and parameter count)
+	if fn.Signature.Recv() != nil && fn.Parent() == nil {
+		for k, c := range e.CS.Funcs {
+			if !c.Implementations || !strings.HasSuffix(k, ")."+fn.Name()) {
+				continue
+			}
+			if c.ImplParams == 0 || c.ImplParams == fn.Signature.Params().Len()+1 {
+				if e.inRepo(fn) {
+					return c
+				}
+			}
+		}
+	}
+	// instance of a generic function: the contract is written once, without type arguments
+	if len(fn.TypeArgs()) > 0 || (fn.Parent() != nil && strings.Contains(rel, "[")) {
+		if c, ok := e.CS.Funcs[pp+"::"+stripTypeArgs(rel)]; ok {
+			return c
+		}
+	}
 	return nil
+}
+
+// stripTypeArgs removes the type argument lists from a function name:
+// (*ItemCache[uint64,*pkg.T]).ForEach$1 -> (*ItemCache).ForEach$1
+func stripTypeArgs(s string) string {
+	var b strings.Builder
+	depth := 0
+	for i := 0; i < len(s); i++ {
+		ch := s[i]
+		switch {
+		case ch == '[' && (depth > 0 || (i > 0 && isIdentByte(s[i-1]))):
+			depth++
+		case ch == ']' && depth > 0:
+			depth--
+		case depth == 0:
+			b.WriteByte(ch)
+		}
+	}
+	return b.String()
+}
+
+func isIdentByte(c byte) bool {
+	return c == '_' || c >= '0' && c <= '9' || c >= 'a' && c <= 'z' || c >= 'A' && c <= 'Z'
 }
 
 func (e *Engine) typeID(t types.Type) int {
@@ -315,7 +358,24 @@ func (e *Engine) Bind() (bound []Bound, unbound []*Contract) {
 			fn = e.Funcs["::"+c.Key]
 		}
 		if fn == nil {
-			unbound = append(unbound, c)
+			// a contract on a generic function or method binds to every instantiation
+			var inst []*ssa.Function
+			for fk, f := range e.Funcs {
+				if f.Origin() == nil || len(f.TypeArgs()) == 0 || !strings.HasPrefix(fk, c.PkgPath+"::") || c.PkgPath == "" {
+					continue
+				}
+				if stripTypeArgs(strings.TrimPrefix(fk, c.PkgPath+"::")) == c.Key {
+					inst = append(inst, f)
+				}
+			}
+			if len(inst) == 0 {
+				unbound = append(unbound, c)
+				continue
+			}
+			sort.Slice(inst, func(i, j int) bool { return inst[i].String() < inst[j].String() })
+			for _, f := range inst {
+				bound = append(bound, Bound{c, f})
+			}
 			continue
 		}
 		bound = append(bound, Bound{c, fn})
